@@ -111,6 +111,30 @@ def interval_reaching_outside_is_refused_or_clipped(n: int, h0: float, h1: float
     check_partition(blocks, hs, n, res, zl, zu, H)
 
 
+@lemma(gen=dict(HGEN, zl=(-30.0, 150.0), zu=(-30.0, 150.0), same_point=[True, False]))
+def empty_or_reversed_interval_reports_nothing(n: int, h0: float, h1: float, h2: float, h3: float, zl: float, zu: float, same_point: bool):
+    """The two lemmas above condition on zLower < zUpper.  The remaining orderings - zLower == zUpper (an interval of
+    length 0, anywhere: inside a block, exactly on a block boundary, outside the assembly) and zLower > zUpper (reversed)
+    - for n = 1..3 blocks (enumerated): nothing is reported (there is no interval to partition: "overlap heights are
+    positive and sum to its length" leaves only the empty list) or the call fails loudly (ValueError; IndexError when no
+    block touches the point).  An empty interval that touches the assembly is never refused."""
+    n = choose(n, 1, 3)
+    hs = [h0, h1, h2, h3]
+    assume(h0 > 0 and h1 > 0 and h2 > 0 and h3 > 0)
+    a, blocks, H = stacked(n, hs)
+    if same_point:
+        zu = zl
+    assume(zl >= zu)
+    try:
+        res = a.getBlocksBetweenElevations(zl, zu)
+    except (ValueError, IndexError):
+        cover("refused")
+        assert zl > zu or zl < 0 or zl > H, "an empty interval at an elevation of the assembly is not an error"
+        return
+    cover("returned")
+    assert len(res) == 0, "no block overlaps an empty or reversed interval by a positive height"
+
+
 # ----------------------------------------------------------------------------- z-coordinates from block heights
 def raw_assembly(n, hs, junk):
     """n blocks with the given heights whose zbottom / ztop / z parameters are STALE (arbitrary values) and no grid yet"""
@@ -210,7 +234,7 @@ def compo(solid, nd):
     return new(Component, p=p, material=new(Material) if solid else new(Fluid), parent=None, name="c", cached={})
 
 
-@lemma(gen=dict(HGEN, n=(2, 3), m0=(0.5, 80.0), d1=(0.5, 80.0), d2=(0.5, 80.0), a0=(0.0, 0.05), a1=(0.0, 0.05), a2=(0.0, 0.05)),
+@lemma(gen=dict(HGEN, n=(2, 3), m0=(0.5, 80.0), d1=(0.5, 80.0), d2=(0.5, 80.0), a0=(-0.01, 0.05), a1=(-0.01, 0.05), a2=(-0.01, 0.05)),
        stubs={"armi.reactor.composites:ArmiObject.isFuel": "no_flags_is_not_fuel"}, timeout=120)
 def block_mesh_change_conserves_mass_when_asked(n: int, conserve: bool, h0: float, h1: float, h2: float, m0: float, d1: float, d2: float, a0: float, a1: float,
                                                 a2: float):
@@ -223,7 +247,7 @@ def block_mesh_change_conserves_mass_when_asked(n: int, conserve: bool, h0: floa
     n = choose(n, 2, 3)
     hs, dens = [h0, h1, h2], [a0, a1, a2]
     mesh = [m0, m0 + d1, m0 + d1 + d2]
-    assume(h0 > 0 and h1 > 0 and h2 > 0 and m0 > 0 and d1 > 0 and d2 > 0 and a0 >= 0 and a1 >= 0 and a2 >= 0)
+    assume(h0 > 0 and h1 > 0 and h2 > 0 and m0 > 0 and d1 > 0 and d2 > 0)  # densities of any sign: the statement is an identity in them
     blocks, solids, fluids = [], [], []
     for k in range(n):
         solids.append(compo(True, dens[k]))
